@@ -663,7 +663,31 @@ func MayWrap(s string) string {
 }
 
 func balanced(expr string) bool {
-	return ExprLastIndex(expr) == len(expr)-1
+	return ExprLastIndex(expr) == len(expr)-1 && !closesEarly(expr)
+}
+
+// closesEarly reports if a closing parenthesis in the given expression has
+// no opening one before it. For example, the inner part of "(a) AND (b)".
+func closesEarly(expr string) bool {
+	depth := 0
+	for i := 0; i < len(expr); i++ {
+		switch c := expr[i]; c {
+		case '(':
+			depth++
+		case ')':
+			if depth--; depth < 0 {
+				return true
+			}
+		// String or identifier.
+		case '\'', '"', '`':
+			for i++; i < len(expr) && expr[i] != c; i++ {
+				if expr[i] == '\\' {
+					i++
+				}
+			}
+		}
+	}
+	return false
 }
 
 // ExprLastIndex scans the first expression in the given string until
